@@ -28,9 +28,9 @@ def scan(state, groups, tid):
     kw = dict(M0=p["M0"], rho0=p["rho0"], Tref=p["Tref"], gamma=p["gamma"], Cv=p["Cv"] * 1.4472799784454e12,
               expDensity_abs=p.get("expDensity_abs", 0.0), expTemp_abs=p.get("expTemp_abs", 0.0))
     kw.update(opac)
-    if kind != "ED":
+    if kind not in ("ED", "Sn"):
         kw["problem"] = kind
-    cls = R.ED_Solver if kind == "ED" else R.nED_Solver
+    cls = R.ED_Solver if kind == "ED" else R.Sn_Solver if kind == "Sn" else R.nED_Solver
     with contextlib.redirect_stdout(io.StringIO()), warnings.catch_warnings():
         warnings.simplefilter("ignore")
         with np.errstate(all="ignore"):
@@ -47,7 +47,9 @@ def scan(state, groups, tid):
     c0 = float(s.Sound_Speed[0]) if np.isfinite(s.Sound_Speed[0]) else math.sqrt(gam * (gam - 1) * Cv * Tref)
     e = pr / rho / (gam - 1)
     mass = rho * u
-    mom = rho * u * u + pr + A_R * Tr ** 4 / 3.0
+    # radiation pressure: Eddington factor x radiation energy density (1/3 in the diffusion models, the solver's own variable factor for Sn)
+    edd = np.asarray(s.VEF, float) if kind == "Sn" and hasattr(s, "VEF") else 1.0 / 3.0
+    mom = rho * u * u + pr + edd * A_R * Tr ** 4
     ener = u * (0.5 * rho * u * u + rho * e + pr) + Fr * c0
     ok = np.isfinite(mass) & np.isfinite(mom) & np.isfinite(ener)
     idx = np.nonzero(ok)[0]
